@@ -89,7 +89,15 @@ class SimFS:
     # ---- file API ---------------------------------------------------------------------
     def os_open(self, path, flags: int, mode: int = 0o777) -> int:
         """os.open: no implicit truncation - only O_TRUNC empties an existing file"""
-        path = _real_os.fspath(path)
+        path = _real_os.fspath(path).rstrip("/") or "/"
+        if path in self.dirs:
+            # a descriptor for a directory (to fsync it after a rename)
+            if flags & (_real_os.O_WRONLY | _real_os.O_RDWR):
+                raise IsADirectoryError(21, "Is a directory", path)
+            self.step("os_open_dir", path)
+            fd = 20_000 + len(self.fds)
+            self.fds[fd] = (path, flags)
+            return fd
         if _real_os.path.dirname(path) not in self.dirs:
             raise FileNotFoundError(2, "No such file or directory", path)
         if self.step("os_open", path):
@@ -334,6 +342,12 @@ class _OsShim:
         return _real_os.close(fd)
 
     @staticmethod
+    def fdopen(fd, *a, **kw):
+        if isinstance(fd, int) and CUR.fs is not None and fd in CUR.fs.fds:
+            return CUR.fs.open(fd, *a, **kw)
+        return _real_os.fdopen(fd, *a, **kw)
+
+    @staticmethod
     def fsync(fd):
         if isinstance(fd, int) and fd >= 10_000 and CUR.fs is not None:
             CUR.fs.step("fsync", str(fd))
@@ -480,7 +494,19 @@ class _TempfileShim:
 
     @staticmethod
     def mkstemp(suffix=None, prefix=None, dir=None, text=False):
-        raise NotImplementedError("mkstemp is not simulated")
+        d = _real_os.fspath(dir) if dir is not None else TMPDIR
+        if not _is_sim(d):
+            import tempfile
+
+            return tempfile.mkstemp(suffix, prefix, dir, text)
+        CUR.fs.tmp_counter += 1
+        name = _real_os.path.join(d, (prefix or "tmp") + f"simtmp{CUR.fs.tmp_counter}" + (suffix or ""))
+        fd = CUR.fs.os_open(name, _real_os.O_RDWR | _real_os.O_CREAT | _real_os.O_EXCL, 0o600)
+        return fd, name
+
+    @staticmethod
+    def gettempdir():
+        return TMPDIR if CUR.fs is not None else __import__("tempfile").gettempdir()
 
 
 class _ShutilShim:
